@@ -122,13 +122,22 @@ pub fn run_case<V: VringT<GM> + Clone + Send + Sync + 'static>(case: &Value, tra
         trace.emit(json!({"ev": "stress", "threads": n, "iters": iters, "lost": lost, "setup": format!("{s1}/{s2}")}));
     }
     let mut listeners: Vec<std::sync::Arc<EventFd>> = Vec::new();
+    let mut closed = false;
     for step in case["steps"].as_array().unwrap() {
         let op = step["op"].as_str().unwrap();
+        if closed && op != "reconnect" {
+            // the daemon has ended the connection: nothing can be sent until the case reconnects
+            continue;
+        }
+        closed = false;
         let q = step["q"].as_u64().unwrap_or(0) as usize;
         rig.log.take();
         let mut out = json!({});
         let mut status = "none".to_string();
         match op {
+            "reconnect" => {
+                status = if rig.reconnect() { "ok".into() } else { "failed".into() };
+            }
             "negotiate" => {
                 out = rig.negotiate(from_bits(&step["feats"]), from_bits(&step["pf"]));
                 status = "ok".into();
@@ -446,8 +455,11 @@ pub fn run_case<V: VringT<GM> + Clone + Send + Sync + 'static>(case: &Value, tra
         let snaps: Vec<Value> = last_per_thread.values().map(|e| json!({"thread": e["thread"], "sizes": e["sizes"], "rings": e["rings"]})).collect();
         e["barriers"] = json!(snaps);
         trace.emit(e);
-        if status == "closed" || !workers_ok {
+        if !workers_ok || status == "failed" {
             break;
+        }
+        if status == "closed" {
+            closed = true;
         }
     }
     drop(listeners);
